@@ -541,6 +541,33 @@ class _Canon(ast.NodeTransformer):
                     continue
             i += 1
 
+    def _constant_tuple_locals(self, fn: ast.FunctionDef) -> None:
+        """`kinds = (A.x, B.y, 3)` assigned once, at the top level of the function, and read only as the right side of `in` / `not in` is the
+        literal tuple at those tests."""
+        for a in list(fn.body):
+            if isinstance(a, ast.Assign) and len(a.targets) == 1 and isinstance(a.targets[0], ast.Name) and isinstance(a.value, (ast.Tuple, ast.List)) and a.value.elts:
+                def plain(e):
+                    while isinstance(e, ast.Attribute):
+                        e = e.value
+                    return isinstance(e, (ast.Name, ast.Constant))
+                if not all(plain(e) for e in a.value.elts):
+                    continue
+                nm = a.targets[0].id
+                occ = [x for x in ast.walk(fn) if isinstance(x, ast.Name) and x.id == nm]
+                if sum(1 for x in occ if isinstance(x.ctx, (ast.Store, ast.Del))) != 1:
+                    continue
+                tests = [c for c in ast.walk(fn) if isinstance(c, ast.Compare) and len(c.ops) == 1 and isinstance(c.ops[0], (ast.In, ast.NotIn))
+                         and isinstance(c.comparators[0], ast.Name) and c.comparators[0].id == nm]
+                if len(tests) != len(occ) - 1 or not tests or any(c.lineno < a.lineno for c in tests):
+                    continue
+                roots = {x.id for e in a.value.elts for x in ast.walk(e) if isinstance(x, ast.Name)}
+                if any(isinstance(x, ast.Name) and x.id in roots and isinstance(x.ctx, (ast.Store, ast.Del)) for x in ast.walk(fn)):
+                    continue
+                for c in tests:
+                    c.comparators = [ast.copy_location(ast.Tuple(elts=[copy.deepcopy(e) for e in a.value.elts], ctx=ast.Load()), c.comparators[0])]
+                    ast.fix_missing_locations(c)
+                fn.body = [st for st in fn.body if st is not a] or fn.body
+
     def _method_aliases(self, fn: ast.FunctionDef) -> None:
         """`f = self.m` (m a plain method of a class of this module, never stored to) ... `f(args)` is `self.m(args)`: a bound method
         named for the length of the function."""
@@ -589,6 +616,7 @@ class _Canon(ast.NodeTransformer):
         try:
             n = self.generic_visit(n)
             self._constant_return_guards(n.body)
+            self._constant_tuple_locals(n)
             self._method_aliases(n)
             self._field_copies(n, counts)
             self._default_fills(n)
